@@ -208,7 +208,16 @@ pub fn malformed(rng: &mut Rng, kind: u64) -> Vec<u8> {
         1 => { let l = 1 + rng.below(10) as usize; let mut v = soup(rng, l).into_bytes(); let i = rng.below(v.len() as u64 + 1) as usize; v.insert(i.min(v.len()), 0xC3); v } // invalid UTF-8
         2 => { let l = 1 + rng.below(12) as usize; soup(rng, l).into_bytes() }
         3 => {
-            let n = rng.pick(&["99999999999999999999999", "18446744073709551616", "18446744073709551615", "٣", "1٣", "００７", "0000000000000000000000001", "9223372036854775808"]).to_string();
+            let n = if rng.chance(1, 2) {
+                // digit runs of other scripts (2-, 3- and 4-byte digits), any length, optional ASCII prefix
+                let script: &[char] = *rng.pick(&[&['٣', '٠', '٩'][..], &['३', '१'][..], &['๓', '๑'][..], &['３', '０'][..], &['𝟑', '𝟗'][..]]);
+                let mut s = "1".repeat(rng.below(4) as usize);
+                for _ in 0..1 + rng.below(40) { s.push(*rng.pick(script)); }
+                if rng.chance(1, 3) { s.push_str(&"7".repeat(rng.below(30) as usize)); }
+                s
+            } else {
+                rng.pick(&["99999999999999999999999", "18446744073709551616", "18446744073709551615", "٣", "1٣", "００７", "0000000000000000000000001", "9223372036854775808"]).to_string()
+            };
             format!("[a, b] {} {}", rng.pick(&["=", "<=", ">=", "<", ">"]), n).into_bytes()
         }
         4 => { let d = 1 + rng.below(200) as usize; format!("{}a{}", "(".repeat(d), ")".repeat(d - rng.below(2) as usize)).into_bytes() }
